@@ -33,6 +33,8 @@ func atomsOfInt(info *types.Info, e ast.Expr, out map[string]bool) bool {
 			return atomsOfInt(info, v.X, out)
 		}
 		return false
+	case *ast.BasicLit:
+		return v.Kind == token.INT // a literal of a synthesised expression
 	case *ast.Ident, *ast.SelectorExpr:
 		out[canon(e)] = true
 		return true
@@ -45,6 +47,11 @@ func atomsOfInt(info *types.Info, e ast.Expr, out map[string]bool) bool {
 		if tv, ok := info.Types[v.Fun]; ok && tv.IsType() && len(v.Args) == 1 {
 			return atomsOfInt(info, v.Args[0], out)
 		}
+		// a getter without arguments (r.GetEnd()) is an opaque quantity
+		if _, isSel := unparen(v.Fun).(*ast.SelectorExpr); isSel && len(v.Args) == 0 {
+			out[canon(e)] = true
+			return true
+		}
 	}
 	return false
 }
@@ -55,6 +62,9 @@ func evalIntAtoms(info *types.Info, e ast.Expr, env atomEnv) int64 {
 		return k
 	}
 	switch v := e.(type) {
+	case *ast.BasicLit:
+		k, _ := strconv.ParseInt(v.Value, 0, 64)
+		return k
 	case *ast.BinaryExpr:
 		x, y := evalIntAtoms(info, v.X, env), evalIntAtoms(info, v.Y, env)
 		switch v.Op {
